@@ -35,6 +35,26 @@ impl<'a> Read for ChunkReader<'a> {
     }
 }
 
+/// a writer that accepts the data in generated chunk sizes (short writes are legal for `Write::write`)
+pub struct ChunkWriter<'a> {
+    pub data: Vec<u8>,
+    pub chunks: &'a [u8],
+    pub i: usize,
+}
+
+impl<'a> std::io::Write for ChunkWriter<'a> {
+    fn write(&mut self, buf: &[u8]) -> std::io::Result<usize> {
+        let c = if self.chunks.is_empty() { usize::MAX } else { std::cmp::max(1, self.chunks[self.i % self.chunks.len()] as usize) };
+        self.i += 1;
+        let n = std::cmp::min(c, buf.len());
+        self.data.extend_from_slice(&buf[..n]);
+        Ok(n)
+    }
+    fn flush(&mut self) -> std::io::Result<()> {
+        Ok(())
+    }
+}
+
 #[derive(Clone, Debug, Serialize, Deserialize, PartialEq, Eq, Hash)]
 pub enum Ty {
     Fr,
@@ -219,10 +239,10 @@ fn prepare(c: &SerCase, info: &mut Info) -> Result<(Vec<u8>, bool), String> {
     let (written, model_image): (Vec<u8>, Vec<u8>) = match c.ty {
         Ty::Fr => {
             let v = c.fr.fr();
-            let mut buf = vec![];
+            let mut buf = ChunkWriter { data: vec![], chunks: &c.chunks, i: 0 };
             let e = fr_c(&v);
             cr("Fr::serialize", || e.serialize(&mut buf, c.compressed))?.map_err(|e| format!("serialize error {}", e))?;
-            (buf, be_fixed(&v, 32))
+            (buf.data, be_fixed(&v, 32))
         }
         Ty::Fq12 => {
             let t = c.fq12.tower(12);
@@ -234,14 +254,14 @@ fn prepare(c: &SerCase, info: &mut Info) -> Result<(Vec<u8>, bool), String> {
                 }
             }
             let e = fq12_c_tower(&t);
-            let mut buf = vec![];
+            let mut buf = ChunkWriter { data: vec![], chunks: &c.chunks, i: 0 };
             cr("Fq12::serialize", || e.serialize(&mut buf, c.compressed))?.map_err(|e| format!("serialize error {}", e))?;
-            (buf, img)
+            (buf.data, img)
         }
         Ty::G1 | Ty::G1Affine => {
             let pm = base_point::<G1m>(&c.point).unwrap();
             let img = encode(&pm, c.compressed);
-            let mut buf = vec![];
+            let mut buf = ChunkWriter { data: vec![], chunks: &c.chunks, i: 0 };
             if c.ty == Ty::G1 {
                 let p = rep_build::<G1m>(&pm, &c.rep);
                 cr("G1::serialize", || p.serialize(&mut buf, c.compressed))?.map_err(|e| format!("serialize error {}", e))?;
@@ -249,12 +269,12 @@ fn prepare(c: &SerCase, info: &mut Info) -> Result<(Vec<u8>, bool), String> {
                 let p = aff_c::<G1m>(&pm);
                 cr("G1Affine::serialize", || p.serialize(&mut buf, c.compressed))?.map_err(|e| format!("serialize error {}", e))?;
             }
-            (buf, img)
+            (buf.data, img)
         }
         Ty::G2 | Ty::G2Affine => {
             let pm = base_point::<G2m>(&c.point).unwrap();
             let img = encode(&pm, c.compressed);
-            let mut buf = vec![];
+            let mut buf = ChunkWriter { data: vec![], chunks: &c.chunks, i: 0 };
             if c.ty == Ty::G2 {
                 let p = rep_build::<G2m>(&pm, &c.rep);
                 cr("G2::serialize", || p.serialize(&mut buf, c.compressed))?.map_err(|e| format!("serialize error {}", e))?;
@@ -262,7 +282,7 @@ fn prepare(c: &SerCase, info: &mut Info) -> Result<(Vec<u8>, bool), String> {
                 let p = aff_c::<G2m>(&pm);
                 cr("G2Affine::serialize", || p.serialize(&mut buf, c.compressed))?.map_err(|e| format!("serialize error {}", e))?;
             }
-            (buf, img)
+            (buf.data, img)
         }
     };
     if written != model_image {
@@ -511,7 +531,7 @@ fn check_multi(c: &MultiCase, info: &mut Info) -> Result<(), String> {
 pub fn def() -> PropDef {
     PropDef {
         id: "C19",
-        rule: "values of Fr, Fq12, G1, G2, G1Affine, G2Affine (subgroup points of every class incl. identity, walks P+[k]G, projective values in generated representatives) x both flags: bytes written compared with the model image (32 / 576 / 48|96 / 96|192 bytes); streams read back through a chunking, counting reader (whole / byte-at-a-time / generated chunk sizes): valid image, every kind of proper prefix, trailing data, opposite flag, one field component replaced by p+k / p-1-k / 2^381 / all-ones / uniform, arbitrary point bytes from the C04 generator (every rejection class), uniform bytes, single bit flips, the negated point's image; sequences of related streams back to back and multi-item streams through one reader. Oracle: model decides from the bytes alone whether a value is due (then: Ok, exact consumption, value's canonical image equals the consumed bytes) or an error is due (then: Err, never a value or a panic). Non-trivial = stream differs from the valid image; distinct = distinct cases",
+        rule: "values of Fr, Fq12, G1, G2, G1Affine, G2Affine (subgroup points of every class incl. identity, walks P+[k]G, projective values in generated representatives) x both flags: bytes written (through a writer that takes them in generated chunk sizes) compared with the model image (32 / 576 / 48|96 / 96|192 bytes); streams read back through a chunking, counting reader (whole / byte-at-a-time / generated chunk sizes): valid image, every kind of proper prefix, trailing data, opposite flag, one field component replaced by p+k / p-1-k / 2^381 / all-ones / uniform, arbitrary point bytes from the C04 generator (every rejection class), uniform bytes, single bit flips, the negated point's image; sequences of related streams back to back and multi-item streams through one reader. Oracle: model decides from the bytes alone whether a value is due (then: Ok, exact consumption, value's canonical image equals the consumed bytes) or an error is due (then: Err, never a value or a panic). Non-trivial = stream differs from the valid image; distinct = distinct cases",
         needs_pairing: false,
         subs: vec![
             Box::new(Sub { name: "serdes", rule: "serialize bytes == model image; deserialize outcome / consumption / value decided by the model from the bytes", quick: 24_000, thorough: 250_000, strategy: || boxed(ser_case_strategy()), check: check_ser }),
